@@ -73,7 +73,9 @@ const (
 
 var srcName = [nSrc]string{"path", "form", "query", "cookie", "header", "json"}
 
-var keys = []string{"Aa", "Bb", "Cc", "Dd", "Ee", "Ff"}
+// field keys as an application writes them in tags; only some are in canonical header form (header names are
+// case-insensitive, every other source is matched exactly)
+var keys = []string{"aa", "bB", "Cc", "dd-e", "Ee", "FF"}
 
 const hookKey = "Hk"
 
@@ -313,7 +315,10 @@ type TypeSpec struct {
 type ReqSpec struct {
 	Vals      [][][]string `json:"vals"`
 	Multipart bool         `json:"multipart,omitempty"`
+	CT        int          `json:"ct,omitempty"` // spelling of the JSON media type: 0 application/json, 1 Application/JSON, 2 application/JSON; charset=utf-8
 }
+
+var jsonCT = []string{"application/json", "Application/JSON", "application/JSON; charset=utf-8"}
 
 func (f FieldSpec) has(s int) bool { return f.Tags&(1<<uint(s)) != 0 }
 
@@ -428,7 +433,7 @@ func realize(t TypeSpec, r ReqSpec) realReq {
 	switch {
 	case js != nil:
 		body = "{" + strings.Join(js, ",") + "}"
-		w.WriteString("Content-Type: application/json\r\n")
+		w.WriteString("Content-Type: " + jsonCT[r.CT] + "\r\n")
 	case form != nil && r.Multipart:
 		body = mpart.String() + "--B--\r\n"
 		w.WriteString("Content-Type: multipart/form-data; boundary=B\r\n")
@@ -867,6 +872,11 @@ func singleReqs(k *kindInfo, rots []int, multipart bool) []ReqSpec {
 		for _, rot := range rots {
 			out = append(out, ReqSpec{Vals: [][][]string{fieldVals(k, m, 0, rot, -1, 0)}})
 		}
+		if m&(1<<srcJSON) != 0 {
+			for ct := 1; ct < len(jsonCT); ct++ {
+				out = append(out, ReqSpec{Vals: [][][]string{fieldVals(k, m, 0, 0, -1, 0)}, CT: ct})
+			}
+		}
 		if multipart && m&(1<<srcForm) != 0 {
 			out = append(out, ReqSpec{Vals: [][][]string{fieldVals(k, m, 0, 0, -1, 0)}, Multipart: true})
 		}
@@ -877,6 +887,9 @@ func singleReqs(k *kindInfo, rots []int, multipart bool) []ReqSpec {
 			for cls := 1; cls <= 3; cls++ {
 				if classAllowed(k, s, cls) {
 					out = append(out, ReqSpec{Vals: [][][]string{fieldVals(k, m, 0, 0, s, cls)}})
+					if multipart && s == srcForm {
+						out = append(out, ReqSpec{Vals: [][][]string{fieldVals(k, m, 0, 0, s, cls)}, Multipart: true})
+					}
 				}
 			}
 		}
